@@ -75,3 +75,27 @@ func VerifC17_PingDuringExecve() {
 	sym.Assert(!w.initExited, "concurrent calls desynchronised the protocol")
 	sym.Assert(w.host.Ping() == nil, "the environment is unusable after concurrent calls")
 }
+
+// VerifC17_ThreeCallers: three goroutines use one environment concurrently (delay bound 1):
+// a failing Delete, a succeeding Delete and a Ping each get the answer to their own command.
+func VerifC17_ThreeCallers() {
+	w := newWorld()
+	sym.Intercept("os.Remove", func(name string) error {
+		if name == "/w/fails" {
+			return &fs.PathError{Op: "remove", Path: name, Err: syscall.ENOENT}
+		}
+		return nil
+	})
+	var errA, errB, errC error
+	done := 0
+	go func() { errA = w.host.Delete("/w/fails"); done++ }()
+	go func() { errB = w.host.Delete("/w/ok"); done++ }()
+	go func() { errC = w.host.Ping(); done++ }()
+	sym.WaitOthers()
+	sym.Assert(done == 3, "a concurrent call did not return")
+	sym.Reach("all-returned")
+	sym.Assert(errA != nil, "caller A consumed the (successful) answer of another call")
+	sym.Assert(errB == nil && errC == nil, "a caller consumed the (failing) answer of another call")
+	sym.Assert(!w.initExited, "concurrent calls desynchronised the protocol")
+	sym.Assert(w.host.Ping() == nil, "the environment is unusable after concurrent calls")
+}
